@@ -65,7 +65,7 @@ def layouts(t, dim_pair=(0, 1)):
 # 6. object lifecycle (round 5): the object that reaches the call is rarely the one the constructor returned - data
 #    loader workers and DDP pickle it, training scripts deepcopy it, checkpoints go through state_dict /
 #    torch.save.  Every variant below must behave exactly like ``make()``.
-def lifecycle_variants(make, used=None, kinds=None):
+def lifecycle_variants(make, used=None, kinds=None, make_other=None):
     """Yields (name, object).  ``make()`` builds a fresh, fully configured object (configure it with FALSY but
     legal option values too: eos=0, flags False, costs/proportions 0.0, padding 0 - 'missing' is often confused
     with 'falsy' when state is restored).  ``used(obj)``, if given, exercises an object once (so that lazily built
@@ -78,6 +78,13 @@ def lifecycle_variants(make, used=None, kinds=None):
       state_dict-after-use .................. (modules) the receiving module was called BEFORE the load (stale
                                               derived state), strict load of a same-configuration state dict
       double-float .......................... (modules) .double() then .float() (buffers rebuilt through _apply)
+      state_dict-into-other ................. (modules, needs ``make_other``) ``make_other()`` builds a module with
+                                              the same parameter shapes but OTHER option values / other weights
+                                              (and is exercised with ``used``); after
+                                              ``other.load_state_dict(make().state_dict())`` it must compute with
+                                              the loaded weights (no stale derived state) - compare it with an
+                                              object built like ``make_other()`` whose parameters and buffers were
+                                              copied by hand.  A load that raises is skipped by the caller.
     """
     import copy
     import io
@@ -132,3 +139,17 @@ def lifecycle_variants(make, used=None, kinds=None):
                 o = None
             if o is not None:
                 yield "double-float", o
+        if make_other is not None and want("state_dict-into-other"):
+            o = make_other()
+            if used is not None:
+                was = o.training
+                o.eval()
+                with torch.no_grad():
+                    used(o)
+                o.train(was)
+            try:
+                o.load_state_dict(make().state_dict())
+            except Exception:  # noqa: BLE001 - a refused load decides nothing
+                o = None
+            if o is not None:
+                yield "state_dict-into-other", o
